@@ -8,6 +8,8 @@
 (*   heap[i]  the python sets that hold required names                          *)
 (*   rn[s]    the RequiredNames object of s: which set it uses (ref) and which  *)
 (*            grammar it checks the names against (owner)                       *)
+(*   df[s]    the Defaults object of s: the names that have a default and the    *)
+(*            grammar it checks the names against (owner)                       *)
 (*   val[s]   the lazily compiled validator: the elements it was compiled from  *)
 (*   sch[s]   the lazily built, cached schema dictionary (properties, required) *)
 (*   breq[s]  the schema builder's own required set (None until a schema with   *)
@@ -23,12 +25,15 @@
 (* ExportCorrect, SchemaCoherent, SchemaRequired there: findings D14, D1501-D1504,*)
 (* D1506 at specification level.  RenameResets = FALSE is the catalogued mutant   *)
 (* (rename without re-initialising the dependencies): NoStaleValidator fails.   *)
+(* CopyDefaults = "shallow" installs copy(defaults) in a copy (Defaults.__copy__ *)
+(* keeps the source grammar) instead of re-binding: DefaultsBound fails at Copy  *)
+(* and DefaultsWellFormed after  Copy; Delete in the copy; SetDefault there.     *)
 EXTENDS Naturals, FiniteSets, TLC
 
-CONSTANTS Names, Types, Rules, RenameResets, MaxOps
+CONSTANTS Names, Types, Rules, RenameResets, CopyDefaults, MaxOps
 
-VARIABLES el, heap, rn, val, sch, breq, live, nops
-vars == <<el, heap, rn, val, sch, breq, live, nops>>
+VARIABLES el, heap, rn, df, val, sch, breq, live, nops
+vars == <<el, heap, rn, df, val, sch, breq, live, nops>>
 
 Slots == {1, 2}
 Absent == 0                                   \* el[s][n] = 0: n is not an element
@@ -47,6 +52,7 @@ Req(s) == heap[rn[s].ref]
 Init == /\ el = [s \in Slots |-> NoElems]
         /\ heap = [i \in Slots |-> {}]
         /\ rn = [s \in Slots |-> [ref |-> s, owner |-> s]]
+        /\ df = [s \in Slots |-> [names |-> {}, owner |-> s]]
         /\ val = [s \in Slots |-> NoVal]
         /\ sch = [s \in Slots |-> NoSch]
         /\ breq = [s \in Slots |-> NoneB]
@@ -59,6 +65,8 @@ Reset(s) == val' = [val EXCEPT ![s] = NoVal] /\ sch' = [sch EXCEPT ![s] = NoSch]
 (* RequiredNames.add checks the name against the bound grammar: the call raises when it is not there  *)
 CanRequire(s, e, n) == LET o == rn[s].owner IN IF o = s THEN n \in Dom(e) ELSE n \in Dom(el[o])
 
+CanDefault(s, e, n) == LET o == df[s].owner IN IF o = s THEN n \in Dom(e) ELSE n \in Dom(el[o])
+
 (* update_from_types({n: t}) *)
 AddTyped(s, n, t) ==
   /\ live[s] /\ Tick
@@ -66,7 +74,7 @@ AddTyped(s, n, t) ==
        /\ CanRequire(s, e, n)
        /\ el' = [el EXCEPT ![s] = e]
   /\ heap' = [heap EXCEPT ![rn[s].ref] = @ \cup {n}]
-  /\ Reset(s) /\ UNCHANGED <<rn, breq, live>>
+  /\ Reset(s) /\ UNCHANGED <<rn, df, breq, live>>
 
 (* update_from_names([n]): add_object on the builder, then its required set is cleared *)
 AddNamed(s, n) ==
@@ -76,7 +84,7 @@ AddNamed(s, n) ==
        /\ el' = [el EXCEPT ![s] = e]
   /\ heap' = [heap EXCEPT ![rn[s].ref] = @ \cup {n}]
   /\ breq' = [breq EXCEPT ![s] = SetB({})]
-  /\ Reset(s) /\ UNCHANGED <<rn, live>>
+  /\ Reset(s) /\ UNCHANGED <<rn, df, live>>
 
 (* update_from_schema({properties: {n: t}, required: [n] if r}) *)
 AddSchema(s, n, t, r) ==
@@ -89,14 +97,16 @@ AddSchema(s, n, t, r) ==
         /\ el' = [el EXCEPT ![s] = e]
         /\ heap' = [heap EXCEPT ![rn[s].ref] = @ \cup add]
         /\ breq' = [breq EXCEPT ![s] = IF b.none THEN b ELSE SetB({})]
-  /\ Reset(s) /\ UNCHANGED <<rn, live>>
+  /\ Reset(s) /\ UNCHANGED <<rn, df, live>>
 
 Rename(s, n, m) ==
   /\ live[s] /\ Tick /\ n \in Dom(el[s]) /\ m \notin Dom(el[s])
   /\ LET e == [el[s] EXCEPT ![n] = Absent, ![m] = el[s][n]] IN
        /\ (n \in Req(s) => CanRequire(s, e, m))
+       /\ (n \in df[s].names => CanDefault(s, e, m))
        /\ el' = [el EXCEPT ![s] = e]
   /\ heap' = [heap EXCEPT ![rn[s].ref] = IF n \in @ THEN (@ \ {n}) \cup {m} ELSE @]
+  /\ df' = [df EXCEPT ![s].names = IF n \in @ THEN (@ \ {n}) \cup {m} ELSE @]
   /\ (IF RenameResets THEN Reset(s) ELSE UNCHANGED <<val, sch>>)
   /\ UNCHANGED <<rn, breq, live>>
 
@@ -104,6 +114,7 @@ Delete(s, n) ==
   /\ live[s] /\ Tick /\ n \in Dom(el[s])
   /\ el' = [el EXCEPT ![s][n] = Absent]
   /\ heap' = [heap EXCEPT ![rn[s].ref] = @ \ {n}]
+  /\ df' = [df EXCEPT ![s].names = @ \ {n}]
   /\ Reset(s) /\ UNCHANGED <<rn, breq, live>>
 
 (* required_names.remove(n): the code does not touch the cached schema; the coherent rule rebuilds the *)
@@ -111,7 +122,13 @@ Delete(s, n) ==
 Unrequire(s, n) ==
   /\ live[s] /\ Tick /\ n \in Req(s)
   /\ heap' = [heap EXCEPT ![rn[s].ref] = @ \ {n}]
-  /\ UNCHANGED <<el, rn, val, sch, breq, live>>
+  /\ UNCHANGED <<el, rn, df, val, sch, breq, live>>
+
+(* defaults[n] = v: Defaults.__setitem__ checks the name against the bound grammar *)
+SetDefault(s, n) ==
+  /\ live[s] /\ Tick /\ CanDefault(s, el[s], n)
+  /\ df' = [df EXCEPT ![s].names = @ \cup {n}]
+  /\ UNCHANGED <<el, heap, rn, val, sch, breq, live>>
 
 (* what the builder exports as "required" when the code synchronises it with the required names *)
 Synced(s) == IF breq[s].none THEN [has |-> FALSE, req |-> {}]
@@ -123,13 +140,13 @@ Filled(s) == IF sch[s].some THEN sch[s] ELSE Built(s)
 
 (* grammar.schema *)
 Schema(s) ==
-  /\ live[s] /\ UNCHANGED <<el, heap, rn, val, live, nops>>
+  /\ live[s] /\ UNCHANGED <<el, heap, rn, df, val, live, nops>>
   /\ sch' = [sch EXCEPT ![s] = Filled(s)]
   /\ breq' = [breq EXCEPT ![s] = IF Code /\ ~sch[s].some THEN AfterSync(s) ELSE @]
 
 (* validate(): compiles the validator when there is none; the code pops "required" from the cached dict *)
 Validate(s) ==
-  /\ live[s] /\ UNCHANGED <<el, heap, rn, live, nops>>
+  /\ live[s] /\ UNCHANGED <<el, heap, rn, df, live, nops>>
   /\ IF val[s].some THEN UNCHANGED <<val, sch, breq>>
      ELSE /\ val' = [val EXCEPT ![s] = [some |-> TRUE, e |-> Filled(s).e]]
           /\ sch' = [sch EXCEPT ![s] = IF Code THEN [Filled(s) EXCEPT !.has = FALSE] ELSE Filled(s)]
@@ -137,7 +154,7 @@ Validate(s) ==
 
 (* to_json(): nothing is cached; the code leaves the builder's required set cleared *)
 ToJson(s) ==
-  /\ live[s] /\ UNCHANGED <<el, heap, rn, val, sch, live, nops>>
+  /\ live[s] /\ UNCHANGED <<el, heap, rn, df, val, sch, live, nops>>
   /\ breq' = [breq EXCEPT ![s] = IF Code THEN AfterSync(s) ELSE @]
 
 (* pickle round trip: the schema is built and shipped, the validator is not; the new builder receives *)
@@ -145,6 +162,7 @@ ToJson(s) ==
 Pickle(s) ==
   /\ live[s] /\ Tick /\ UNCHANGED <<el, heap, live>>
   /\ rn' = [rn EXCEPT ![s].owner = IF rn[s].owner = s THEN s ELSE @]
+  /\ df' = [df EXCEPT ![s].owner = s]                 \* shipped as a plain dict, set again one by one
   /\ val' = [val EXCEPT ![s] = NoVal]
   /\ sch' = [sch EXCEPT ![s] = Filled(s)]
   /\ breq' = [breq EXCEPT ![s] = IF Filled(s).has THEN SetB(Filled(s).req) ELSE NoneB]
@@ -157,6 +175,8 @@ Copy ==
   /\ val' = [val EXCEPT ![2] = val[1]]
   /\ sch' = [sch EXCEPT ![2] = sch[1]]
   /\ breq' = [breq EXCEPT ![2] = IF breq[1].set = {} THEN NoneB ELSE breq[1]]
+  /\ df' = [df EXCEPT ![2] = [names |-> df[1].names,
+                              owner |-> IF CopyDefaults = "shallow" THEN df[1].owner ELSE 2]]
   /\ IF Code THEN /\ rn' = [rn EXCEPT ![2] = rn[1]]                 \* copy(self._required_names)
                   /\ UNCHANGED heap
      ELSE /\ rn' = [rn EXCEPT ![2] = [ref |-> 2, owner |-> 2]]      \* RequiredNames(copy, names)
@@ -164,7 +184,7 @@ Copy ==
 
 Next == \/ \E s \in Slots, n \in Names :
              \/ \E t \in Types : AddTyped(s, n, t) \/ \E r \in BOOLEAN : AddSchema(s, n, t, r)
-             \/ AddNamed(s, n) \/ Delete(s, n) \/ Unrequire(s, n)
+             \/ AddNamed(s, n) \/ Delete(s, n) \/ Unrequire(s, n) \/ SetDefault(s, n)
              \/ \E m \in Names : Rename(s, n, m)
         \/ \E s \in Slots : Schema(s) \/ Validate(s) \/ ToJson(s) \/ Pickle(s)
         \/ Copy
@@ -187,6 +207,9 @@ TypeOK == /\ el \in [Slots -> Elems] /\ heap \in [Slots -> SUBSET Names] /\ nops
 NoStaleValidator == \A s \in Slots : (live[s] /\ val[s].some) => val[s].e = el[s]
 (* required names only refer to existing elements *)
 WellFormed == \A s \in Slots : live[s] => Req(s) \subseteq Dom(el[s])
+(* defaults only refer to existing elements, and each grammar checks them against itself *)
+DefaultsWellFormed == \A s \in Slots : live[s] => df[s].names \subseteq Dom(el[s])
+DefaultsBound == \A s \in Slots : live[s] => df[s].owner = s
 (* two grammar objects never share their required names, and each checks names against itself *)
 NoSharing == \A s \in Slots : live[s] => (rn[s].owner = s /\ \A t \in Slots \ {s} : live[t] => rn[t].ref # rn[s].ref)
 (* the cached schema is the schema of the current definition *)
